@@ -233,6 +233,8 @@ class TargetLock:
 UNDECIDED_PATTERNS = [
     r"unwinding assertion", r"is not currently supported by Kani", r"unsupported",
     r"recursion unwinding", r"not supported",
+    # a foreign function that neither the crate nor the C model defines: a limit of the model, not a defect
+    r"with missing definition is unreachable", r"missing definition",
 ]
 
 
